@@ -92,17 +92,18 @@ c("t_unique", params=A1, returns="arr1[real]",
 c("f_unique", params=A1, returns="arr1[real]", ensures=["len(result) == len(a)"])
 _ROWEQ = "forall(range(0, a.shape[1]), lambda q: a[i, q] == a[j, q])"
 c("t_unique_rows", params=A2, returns="arr2[real]",
-  ensures=["result.shape[1] == a.shape[1]",
+  ensures=["result.shape[1] == a.shape[1]", "result.shape[0] <= a.shape[0]"])
+# true, but the chain unique -> count -> mask needs instantiations the solver does not find: must hold on CPython,
+# may stay unknown, must never be refuted
+c("u_unique_rows", params=A2, returns="arr2[real]",
+  ensures=[
            # every reported row occurs in the input (at two different positions: see u_unique_rows)
            "forall(range(0, result.shape[0]), lambda k: exists(range(0, a.shape[0]), lambda i: "
            "forall(range(0, a.shape[1]), lambda q: a[i, q] == result[k, q])))",
            # reported rows are pairwise different
            "forall(range(0, result.shape[0]), lambda k: forall(range(k + 1, result.shape[0]), lambda m: "
-           "exists(range(0, a.shape[1]), lambda q: result[k, q] != result[m, q])))"])
-# true, but the chain unique -> count -> mask needs instantiations the solver does not find: must hold on CPython,
-# may stay unknown, must never be refuted
-c("u_unique_rows", params=A2, returns="arr2[real]",
-  ensures=["forall(range(0, result.shape[0]), lambda k: exists(range(0, a.shape[0]), lambda i: exists(range(0, a.shape[0]), "
+           "exists(range(0, a.shape[1]), lambda q: result[k, q] != result[m, q])))",
+          "forall(range(0, result.shape[0]), lambda k: exists(range(0, a.shape[0]), lambda i: exists(range(0, a.shape[0]), "
            "lambda j: i != j and forall(range(0, a.shape[1]), lambda q: a[i, q] == result[k, q] and a[j, q] == result[k, q]))))",
            f"forall(range(0, a.shape[0]), lambda i: forall(range(i + 1, a.shape[0]), lambda j: implies({_ROWEQ}, "
            "exists(range(0, result.shape[0]), lambda k: forall(range(0, a.shape[1]), lambda q: result[k, q] == a[i, q])))))"])
